@@ -8,6 +8,8 @@ def run(cx):
     M.selection(cx)
     M.transform_assembly(cx)
     M.fit_model(cx)
+    from . import transform_rules as T
+    T.to_mef_all(cx, want=('GUARD', 'PAIR', 'WRITESET'))     # the generated transformation is to_mef with the fitted curves
     M.no_module_state(cx, ('mef',), extra=('plot._LogicleTransform.__init__', 'plot._LogicleTransform.transform_non_affine', 'plot._InterpolatedInverseTransform.__init__', 'plot._InterpolatedInverseTransform.transform_non_affine'))
     cx.decided += [
         'groups are formed by label equality (one label per event), ordered by increasing squared distance of their mean to the origin before values are paired, and never re-ordered afterwards',
